@@ -27,7 +27,7 @@ EXPLANATION = (
     'data+pos; find searches [pos, size) only behind pos < size and reports the offset from data(); span element access and '
     'sub-views use the stored pointer plus the requested offset.')
 EXPLANATION += ' C20.R1 also covers nostd::unique_ptr: outside constructors ptr_ is written only by reset/release/swap, reset deletes before it overwrites, and every assignment overload instantiated in the driver (same type, converting, from std::unique_ptr, nullptr) is reset(other.release()) / reset(). C20.R5: std::hash<nostd::string_view> is, on every path, std::hash<std::string> of string(data(), size()). Witnesses W23/W24: copying a function_ref selects the trivial copy/move constructor, not the converting template.'
-NOT_DECIDED = ('equivalence with the std types for every operation over runtime values: comparisons and ordering in general, hashing, '
+NOT_DECIDED = ('equivalence with the std types for every operation over runtime values: comparisons and ordering in general, the hash values themselves, '
                'find/substr results, variant selection/visitation/valueless ordering (vendored absl code is outside the analysed scope), '
                'function_ref invocation.')
 
